@@ -74,7 +74,7 @@ pub fn next_solution_append<'a>(bip: BuiltInPredicate,
 
         } // for
 
-        let out = make_linked_list(false, out_terms);
+        let out = make_list_of_terms(out_terms);
         let last_term = terms[length - 1].clone();
 
         // Unify new list with last term.
